@@ -240,12 +240,18 @@ def _shared_region_thunks(rng, tmpdir):
     width, channels = rng.choice(((1, 1), (2, 1), (2, 2)))
     n = rng.randint(20, 60)
     data = A.random_pcm(random.Random(rng.getrandbits(32)), n, width, channels)
-    region = auditok.AudioRegion(data, rate, width, channels)
+    shared = {}
+
+    def setup():
+        shared["region"] = auditok.AudioRegion(data, rate, width, channels)
+
+    setup()
     thunks = []
     for i in range(rng.choice((2, 3))):
         wins = [(rng.randint(0, n), rng.randint(0, n)) for _ in range(8)]
 
         def th(wins=wins):
+            region = shared["region"]
             out = []
             for _ in range(3):
                 for a, b in wins:
@@ -253,7 +259,7 @@ def _shared_region_thunks(rng, tmpdir):
             return out
 
         thunks.append(th)
-    return thunks, {"family": "shared_region", "fmt": [rate, width, channels], "n": n}
+    return thunks, {"family": "shared_region", "fmt": [rate, width, channels], "n": n, "_setup": setup}
 
 
 def _shared_validator_thunks(rng, tmpdir):
@@ -263,17 +269,24 @@ def _shared_validator_thunks(rng, tmpdir):
     n = rng.choice((4, 16, 50))
     uc = rng.choice((None, "mix", 0, -1)) if channels > 1 else None
     lo, hi = A.THR_RANGE[width]
-    val = AudioEnergyValidator(round(rng.uniform(lo, hi), 1), width, channels, use_channel=uc)
+    thr = round(rng.uniform(lo, hi), 1)
+    shared = {}
+
+    def setup():
+        shared["val"] = AudioEnergyValidator(thr, width, channels, use_channel=uc)
+
+    setup()
     thunks = []
     for i in range(rng.choice((2, 3))):
         r2 = random.Random(rng.getrandbits(32))
         wins = [bytes(n * width * channels) if (k + i) % 2 else A.random_pcm(r2, n, width, channels) for k in range(12)]
 
         def th(wins=wins):
+            val = shared["val"]
             return [bool(val.is_valid(w)) for w in wins]
 
         thunks.append(th)
-    return thunks, {"family": "shared_validator", "width": width, "channels": channels, "window_samples": n, "uc": uc}
+    return thunks, {"family": "shared_validator", "width": width, "channels": channels, "window_samples": n, "uc": uc, "_setup": setup}
 
 
 FAMILIES = {
@@ -293,8 +306,9 @@ def one_round(ctx, fam, gen_seed, tmpdir, real=False):
     if not thunks:
         return
     ctx.count("parallel_rounds_" + fam)
+    setup = desc.pop("_setup", None)
     desc = dict(desc, parallel=True, threads=len(thunks), gen_seed=gen_seed)
-    PP.check_parallel(ctx, fam, thunks, gen_seed ^ 0x5A5A, describe=desc, real=real)
+    PP.check_parallel(ctx, fam, thunks, gen_seed ^ 0x5A5A, describe=desc, real=real, setup=setup)
 
 
 def run(ctx, pid, rounds):
